@@ -21,4 +21,35 @@ add("C20", "c_tl",
     note="Trusts the harness reference TL writer/reader (pbt/ref/tl.go, written from core.telegram.org/mtproto/serialize) and rapid's generators.",
     assumptions=["string/bytes length <= 2^24-1 (the property's domain)"],
     fuzz=[dict(name="FuzzC20", seconds=60)])
+
+BUBBLE = {"GOMAXPROCS": "1"}  # synctest bubbles: one P keeps goroutine scheduling reproducible
+
+add("C01", "c_updates",
+    [T("TestC01Box", 30000, 150000), T("TestC01Manager", 4000, 40000, env=BUBBLE)],
+    pre=["TestC01Regression"],
+    rule="(a) stateful rapid histories over a partitioned server log (N<=40 positions, counts 1..4) against the real sequenceBox: next / later (reorder) / lose / dup / synthetic overlapping / count-0 / fetched difference; (b) the real updates.Manager in a synctest bubble against a simulated honest server (common pts, qts, 0..2 channels, sliced differences, pushes with loss/dup/reorder, pushes not awaited so channel workers interleave with the main loop). non-trivial = history has a duplicate, a reorder that opens a gap, an overlap, a gap filled by arrival or closed by a difference (a) / dup, reorder, loss or sliced difference (b); distinct by action list",
+    technique="model-based stateful PBT (rapid) with a position-frontier reference model; history invariant over recorded handler/difference events; virtual time (testing/synctest)",
+    text="Generated delivery histories; every handler delivery is checked against a frontier model: start <= covered frontier (equality without overlaps), at most once per log update, tracked state equals the model frontier after every step. Sampled search, no absence proof.",
+    note="Trusts the harness model of an honest server (sim_test.go) and the build-tagged VerifSeqBox wrapper; seq (the updates container sequence) is exercised only with seq=0 containers.",
+    assumptions=["position-0 updates never reach a box (callers filter them)", "server differences are honest: range (request, head], messages in new_messages, the rest in other_updates"])
+
+add("C02", "c_updates",
+    [T("TestC02", 5000, 50000, env=BUBBLE)],
+    pre=["TestC02Regression"],
+    rule="finite logs (<=10 common pts entries incl. deletes/reads/edits with pts_count 1..3, <=4 qts entries, <=2 channels x <=7 entries) delivered with loss/dup/reorder through the real Manager in a bubble, recovery by gap timer / idle timer / updatesTooLong / channelTooLong, differences whole or sliced (limit 1..3); non-trivial = a recovering difference carried a pts/qts-bearing entry in other_updates or was sliced; distinct by step list",
+    technique="stateful PBT against a reference server log (rapid + synctest): delivered multiset must cover the log after recovery",
+    text="After the drawn recovery plus two idle periods of virtual time every log entry must have reached the handler (and C01's at-most-once is re-checked). Sampled search.",
+    note="Trusts the simulated difference semantics; unknown-peer shortcuts are disabled by construction (messages carry no user peers).",
+    assumptions=["handler returns nil", "storage never fails"])
+
+add("C03", "c_updates",
+    [T("TestC03", 1500, 15000, env=BUBBLE)],
+    pre=["TestC03Regression"],
+    level="fault_enumeration",
+    rule="C02's histories plus too-long difference answers; every StateStorage write and handler call is recorded in one totally ordered trace; crash points = every trace index for traces <= 12 events, otherwise 6 drawn indexes + 6 drawn indexes just after storage writes; each crash point restarts a second Manager from the storage snapshot at that index and recovers. non-trivial = a crash point directly after a handler call or difference answer (i.e. strictly between delivery and the next write, or inside a difference); distinct by steps+crash points",
+    technique="crash-point enumeration over generated histories (rapid + synctest), trace invariant + restart-and-recover oracle",
+    text="Oracle 1: after each write the saved pts/qts/channel pts covers only entries already delivered or reported too long by callback. Oracle 2: delivered(run1 up to crash) U delivered(run2) covers the log minus reported ranges. Crash points are sampled for long traces, complete for short ones.",
+    note="Crash model: the process stops between two recorded events; storage writes are atomic (the StateStorage contract).",
+    assumptions=["storage writes are individually atomic", "restart uses the same (finite, fully published) server log"])
+
 NOT_CLAIMED = {}
